@@ -209,6 +209,19 @@ def r3(ctx):
             ctx.violation("complement/%s" % neg, ctx.where(sem.CONFORMS, t[neg]),
                           "the %s arm is not the negation of the %s arm result by result (%d vs %d results; mismatching: %s)"
                           % (neg, pos, len(b), len(a), bad[:2]))
+    # a text arm may only yield regex.is_match(..), its negation, an (in)equality of the two texts, or diverge
+    for op, body in t.items():
+        if op == "_":
+            continue
+        rs = []
+        _results(body, rs)
+        for r_ in rs:
+            rr = render(r_)
+            okr = "is_match(" in rr or ".eq(" in rr or ".ne(" in rr or "error_exit" in rr or (r_["k"] == "Bin" and r_["op"] in ("==", "!="))
+            ctx.obligation(okr)
+            if not okr:
+                ctx.violation("result-shape/%s/%s" % (op, rr[:30]), ctx.where(sem.CONFORMS, r_),
+                              "the text comparison %s yields `%s` on some path instead of the regex match / text equality" % (op, rr[:60]))
     ctx.covered("result expressions of the positive/negative text arms compared pairwise", n,
                 distinct_keys=["Ne", "NotRx", "NotLike", "Ene"])
     ctx.floor(n, 8, "result expressions in positive text arms", sem.CONFORMS)
